@@ -335,6 +335,11 @@ func (s *Sim) handleAdmin(c net.Conn) {
 	defer c.Close()
 	r := bufio.NewReader(c)
 	interactive := false
+	// a connection is served by the worker that accepted it: after a reload an old connection
+	// still talks to the old, leaving, worker and not to the one that loaded the new configuration
+	s.mu.Lock()
+	worker := s.Running
+	s.mu.Unlock()
 	for {
 		line, err := readLine(r)
 		if err != nil {
@@ -358,7 +363,7 @@ func (s *Sim) handleAdmin(c net.Conn) {
 			}
 			payload = strings.Join(pl, "\n")
 		}
-		reply, drop := s.admin(line, payload)
+		reply, drop := s.admin(worker, line, payload)
 		if drop {
 			return
 		}
@@ -371,12 +376,12 @@ func (s *Sim) handleAdmin(c net.Conn) {
 	}
 }
 
-func (s *Sim) findServer(ref string) *Server {
+func (s *Sim) findServer(rt *Runtime, ref string) *Server {
 	p := strings.SplitN(ref, "/", 2)
-	if len(p) != 2 || s.Running == nil {
+	if len(p) != 2 || rt == nil {
 		return nil
 	}
-	b := s.Running.Backends[p[0]]
+	b := rt.Backends[p[0]]
 	if b == nil {
 		return nil
 	}
@@ -388,7 +393,7 @@ func (s *Sim) findServer(ref string) *Server {
 	return nil
 }
 
-func (s *Sim) admin(line, payload string) (reply string, drop bool) {
+func (s *Sim) admin(worker *Runtime, line, payload string) (reply string, drop bool) {
 	s.mu.Lock()
 	defer s.mu.Unlock()
 	idx := s.cmdIdx
@@ -420,7 +425,7 @@ func (s *Sim) admin(line, payload string) (reply string, drop bool) {
 			return "Can't commit " + line + "\n", false
 		}
 	}
-	reply = s.apply(line, payload)
+	reply = s.apply(worker, line, payload)
 	logit(strings.TrimRight(reply, "\n"))
 	if fault == "dropafter" {
 		return "", true
@@ -428,11 +433,11 @@ func (s *Sim) admin(line, payload string) (reply string, drop bool) {
 	return reply, false
 }
 
-func (s *Sim) apply(line, payload string) string {
+func (s *Sim) apply(rt *Runtime, line, payload string) string {
 	f := strings.Fields(line)
 	switch {
 	case len(f) >= 4 && f[0] == "set" && f[1] == "server":
-		sv := s.findServer(f[2])
+		sv := s.findServer(rt, f[2])
 		if sv == nil {
 			return "No such server.\n"
 		}
@@ -493,10 +498,10 @@ func (s *Sim) apply(line, payload string) string {
 		return "Unknown set server command.\n"
 	case len(f) >= 4 && f[0] == "set" && f[1] == "ssl" && f[2] == "cert":
 		file := f[3]
-		if s.Running == nil {
+		if rt == nil {
 			return "Can't replace a certificate which is not referenced by the configuration!\n"
 		}
-		if _, ok := s.Running.Certs[file]; !ok {
+		if _, ok := rt.Certs[file]; !ok {
 			return "Can't replace a certificate which is not referenced by the configuration!\n"
 		}
 		s.pendingCrt[file] = digestString(normPEM(payload))
@@ -508,7 +513,7 @@ func (s *Sim) apply(line, payload string) string {
 			return "No ongoing transaction! !\n"
 		}
 		delete(s.pendingCrt, file)
-		s.Running.Certs[file] = d
+		rt.Certs[file] = d
 		return "Committing " + file + ".\nSuccess!\n"
 	case len(f) >= 2 && f[0] == "show" && f[1] == "info":
 		return "Name: HAProxy\nIdle_pct: 100\n"
